@@ -85,7 +85,7 @@ def run(tier, seed):
     stats = {'edits': 0, 'review': 0, 'accept_all': 0, 'model_steps_agree': 0, 'model_outside': 0}; distinct = set(); lens = {}
     for (b0, steps, d), recs in zip(jobs, res):
         ck.count(); lens[len(steps)] = lens.get(len(steps), 0) + 1
-        hist = {'doc': {k: d[k] for k in ('stories', 'comments', 'next_uid', 'rpr_table')}, 'steps': steps}
+        hist = {'doc': A.doc_core(d), 'steps': steps}
         table = list(d['rpr_table'])
         for k, (st, rec) in enumerate(zip(steps, recs)):
             stats[st[0]] += 1
